@@ -385,6 +385,21 @@ def run(chk, replay=None):
             if victims and rng.random() < 0.5:
                 v = rng.choice(victims)
                 t2 = text.replace(sysd['eqtext'][v.idx], '', 1)
+                if rng.random() < 0.5:
+                    # ... and an equation that can only be solved as an NLA equation once the marked unknown is known (nq^2 + nq = v)
+                    vn = v.members[v.home][0]
+                    comp = '<component name="c%d">' % v.home
+                    extra = '<apply><eq/><apply><plus/><apply><times/><ci>nq</ci><ci>nq</ci></apply><ci>nq</ci></apply><ci>%s</ci></apply>' % vn
+                    blk = t2[t2.index(comp):]
+                    blk_end = blk.index('</component>')
+                    body = blk[:blk_end]
+                    if '<math' in body:
+                        body = body.replace('</math>', extra + '</math>', 1)
+                    else:
+                        body += '  <math xmlns="http://www.w3.org/1998/Math/MathML">' + extra + '</math>\n  '
+                    body = body.replace(comp, comp + '\n    <variable name="nq" units="dimensionless"/>', 1)
+                    t2 = t2[:t2.index(comp)] + body + blk[blk_end:]
+                    stats['rescued_with_nla'] = stats.get('rescued_with_nla', 0) + 1
                 open(fn, 'w').write(t2)
                 r0 = run_real(hx, fn, [])
                 r1 = run_real(hx, fn, ['c%d' % v.home, v.members[v.home][0]])
